@@ -441,6 +441,8 @@ package parquet
 //@   free-requires forall u in 0..9223372036854775808: phIsData(srcB, pagePos(srcB, o, u)) && phNV(srcB, pagePos(srcB, o, u)) >= 0
 //@   safety[C16] nil-deref
 //@   modifies heap("parquet.readCounter"), srcPos, rd, vPage, vDefs, curNV
+//@   ghost-exit walkO := o
+//@   ghost-exit walkN := n
 //@   ensures[C10] err == nil ==> (rfault ==> old(rfault))
 //@   ensures[C16] err == nil ==> #res0 >= 1 && nvSum(srcB, o, #res0) >= n && srcPos == pagePos(srcB, o, #res0)
 //@   ensures[C16] err == nil && n > 0 ==> nvSum(srcB, o, #res0 - 1) < n
@@ -456,9 +458,13 @@ package parquet
 //@ func PageHeaders
 //@   verify[C16]
 //@   requires footer != nil && external(r)
+// (the row groups a footer lists exist when the call is made; the verifier cannot tell that the elements of a pointer slice are references)
+//@   free-requires forall g in 0..#footer.RowGroups: allocated(footer.RowGroups[g])
 //@   modifies heap("parquet.readCounter"), srcPos, rd, vPage, vDefs, curNV
 //@   ensures[C10] err == nil ==> (rfault ==> old(rfault))
 //@ loop PageHeaders#1
 //@   invariant (rfault ==> old(rfault)) && freshOrNil(pageHeaders)
 //@ loop PageHeaders#2
 //@   invariant (rfault ==> old(rfault)) && freshOrNil(pageHeaders)
+// every chunk listed by the footer is walked from its own data page offset for its own value count
+//@   invariant[C16] rangeindex >= 0 ==> walkO == rg.Columns[rangeindex].MetaData.DataPageOffset && walkN == rg.Columns[rangeindex].MetaData.NumValues
